@@ -111,3 +111,28 @@ Example sample_signature :
     run_fresh krepaired true sig [AMem (getBuiltin "float3"); AMem g_long; AMem g_float; AScalar] = ERR /\
     run_fresh krepaired true sig [AMem g_float; AMem g_long; AMem g_float] = ERR.
 Proof. eexists. split; [vm_compute; reflexivity|]. repeat split; vm_compute; reflexivity. Qed.
+
+(* the case split of canBeCastedTo / isCyclic (the cases of the proof of cast_iff_rule), on concrete
+   dtypes; props/C10.py generates every one of these classes (coverage: cast_case_split) *)
+Definition st (fs : list dtype) : dtype :=
+  DStruct (mkH [] "" 0 false)
+    (map (fun d => (EmptyString, DRef d)) fs).
+Example cast_case_split :
+  let f := g_float in let i := g_int in let d := g_double in
+  (* shorter = one block, longer = its repetitions *)
+  canBeCastedTo' true (st [f; i]) (st [f; i; f; i]) = Some true /\
+  canBeCastedTo' true (st [f; i; f; i; f; i]) (st [f; i]) = Some true /\
+  (* a later cycle differs after its first entry / at its first entry *)
+  canBeCastedTo' true (st [f; i]) (st [f; i; f; d]) = Some false /\
+  canBeCastedTo' true (st [f; i; f; d]) (st [f; i]) = Some false /\
+  canBeCastedTo' true (st [f; i]) (st [f; i; d; i]) = Some false /\
+  (* the longer list is periodic but does not start with the shorter one *)
+  canBeCastedTo' true (st [f; d]) (st [f; i; f; i]) = Some false /\
+  (* lengths that do not divide, equal lengths, an empty list, byte *)
+  canBeCastedTo' true (st [f; i]) (st [f; i; f]) = Some false /\
+  canBeCastedTo' true (st [f; i; d]) (st [f; i; d]) = Some true /\
+  canBeCastedTo' true (st [f; i; d]) (st [f; i; i]) = Some false /\
+  canBeCastedTo' true (st []) (st [f]) = Some false /\
+  canBeCastedTo' false (st []) (st [f]) = None /\
+  canBeCastedTo' true g_byte (st [f; i; f; d]) = Some true.
+Proof. repeat split; vm_compute; reflexivity. Qed.
